@@ -100,7 +100,7 @@ def check_verify(case):
     r2, s2 = secp.sign(x, z2)
     rr, ss = case['rand']
     cands = [('valid', r, s), ('twin', r, n - s), ('other-digest', r2, s2), ('r0', 0, s), ('s0', r, 0), ('rn', n, s), ('sn', r, n),
-             ('r+n', r + n if r + n < 2 ** 256 else r, s), ('random', rr % n or 1, ss % n or 1), ('s+n', r, s + n if s + n < 2 ** 256 else s)]
+             ('r+n', r + n, s), ('random', rr % n or 1, ss % n or 1), ('s+n', r, s + n)]
     cls = ['verify']
     for tag, a, b in cands:
         der = secp.der(a, b)
